@@ -510,19 +510,19 @@ func (d *interfaceDecoder) DecodePath(ctx *RuntimeContext, cursor, depth int64) 
 			return nil, 0, err
 		}
 		cursor += 4
-		return [][]byte{truebytes}, cursor, nil
+		return nil, cursor, nil
 	case 'f':
 		if err := validateFalse(buf, cursor); err != nil {
 			return nil, 0, err
 		}
 		cursor += 5
-		return [][]byte{falsebytes}, cursor, nil
+		return nil, cursor, nil
 	case 'n':
 		if err := validateNull(buf, cursor); err != nil {
 			return nil, 0, err
 		}
 		cursor += 4
-		return [][]byte{nullbytes}, cursor, nil
+		return nil, cursor, nil
 	}
 	return nil, cursor, errors.ErrInvalidBeginningOfValue(buf[cursor], cursor)
 }
